@@ -1,5 +1,6 @@
 import Oracle.Util
 import MobiusModel.Drain
+import MobiusModel.Spec.Tables
 namespace Oracle
 open Mobius
 
@@ -117,6 +118,20 @@ def c01Handlers : List (String × Handler) := [
     | _ => "bad-op"),
   ("time", fun (a : List String) => match a with
     | [y, s] => toHex (timeEncode (num y) (num s))
+    | _ => "bad-op"),
+  ("specconst", fun (a : List String) => match a with
+    | [tbl, name] =>
+      let t := if tbl == "tran" then Mobius.Spec.tranTypes else if tbl == "field" then Mobius.Spec.fieldIDs
+               else if tbl == "access" then Mobius.Spec.accessConsts else Mobius.Spec.miscConsts
+      match t.lookup name with
+      | some v => toString v
+      | none => "none"
+    | _ => "bad-op"),
+  ("specnames", fun (a : List String) => match a with
+    | [tbl] =>
+      let t := if tbl == "tran" then Mobius.Spec.tranTypes else if tbl == "field" then Mobius.Spec.fieldIDs
+               else if tbl == "access" then Mobius.Spec.accessConsts else Mobius.Spec.miscConsts
+      " ".intercalate (t.map (·.1))
     | _ => "bad-op"),
   ("drain", fun (a : List String) => match a with
     | d :: sizes =>
